@@ -41,7 +41,14 @@ Definition ordered_calls_set_and_clear_flag : bool :=
   match map_body, imap_body with
   | m1 :: _, i1 :: _ => String.eqb m1 "self._worker_comms.signal_keep_order()" && String.eqb i1 "self._worker_comms.signal_keep_order()"
   | _, _ => false end &&
-  has "self._worker_comms.clear_keep_order()" map_body && has "self._worker_comms.clear_keep_order()" imap_body.
+  (* ... and clear it in a finally block: also when the call raises or the generator is closed early *)
+  follows "finally:" "  self._worker_comms.clear_keep_order()" map_body &&
+  follows "finally:" "  self._worker_comms.clear_keep_order()" imap_body.
+(* a call that is left through any other exception (generator closed early, input iterable raising)
+   shuts its workers down *)
+Definition cut_short_terminates : bool :=
+  follows "except BaseException:" "  self.terminate()" imap_unordered_handlers &&
+  follows "  self.terminate()" "  raise" imap_unordered_handlers && has "self._workers = []" terminate_body.
 Definition failure_terminates_and_clears : bool :=
   follows "self.terminate()" "self._worker_comms.clear_keep_order()" handle_exception_body &&
   has "self._workers = []" terminate_body.
@@ -71,7 +78,9 @@ Record hst := mkH {
   p_layout : layout; p_keep_alive : bool; p_params : option mparams
 }.
 
-Inductive outcome := Ok | Fails.      (* Fails: task/init/exit exception, timeout, worker death, interrupt, nested-map misuse *)
+Inductive outcome := Ok | Fails | CutShort.
+(* Fails: task/init/exit exception, timeout, worker death, interrupt, nested-map misuse (all through _handle_exception);
+   CutShort: a lazy call whose generator is closed before exhaustion, or whose input iterable raises *)
 Inductive hop :=
 | HCall (ordered : bool) (mp : mparams) (o : outcome)
 | HSetLayout (l : layout) | HSetKeepAlive (b : bool) | HStopAndJoin | HTerminate.
@@ -121,6 +130,9 @@ Definition hstep (s : hst) (o : hop) : hst * option obs :=
       | Fails =>
           (mkH (if failure_terminates_and_clears then false else true) gen2 wl2 wp2 wo2 init2
                (if failure_terminates_and_clears then false else ko) (p_layout s) (p_keep_alive s) (Some mp), None)
+      | CutShort =>
+          (mkH (if cut_short_terminates then false else true) gen2 wl2 wp2 wo2 init2
+               (if ordered_calls_set_and_clear_flag then false else ko) (p_layout s) (p_keep_alive s) (Some mp), None)
       end
   end.
 
